@@ -172,6 +172,19 @@ def r_filter(ctx):
     # ---- selection
     sel_defs = [d for d in f.defs if d.kind == 'assign' and d.value is not None and
                 any(isinstance(x, ast.Name) and x.id == pname for x in ast.walk(d.value))]
+    if len({d.name for d in sel_defs}) != 1:
+        # keep only the definitions that select from the argument (the argument itself or a slice of it); helper values such
+        # as `start = len(s) - k` merely mention it
+        def selects(d):
+            v = d.value
+            if isinstance(v, ast.IfExp):
+                return any(selects_expr(x) for x in (v.body, v.orelse))
+            return selects_expr(v)
+
+        def selects_expr(v):
+            return (isinstance(v, ast.Name) and v.id == pname) or \
+                (isinstance(v, ast.Subscript) and isinstance(v.value, ast.Name) and v.value.id == pname)
+        sel_defs = [d for d in sel_defs if selects(d)]
     names = {d.name for d in sel_defs}
     if len(names) != 1:
         raise AnalysisError("rule R-FILTER lost its anchor: judged string selected into %s" % sorted(names))
@@ -188,6 +201,16 @@ def r_filter(ctx):
                 if atom == ('v', 'only_last', 'P'):
                     arms[p], arms[not p] = t[2], t[3]
             continue
+        if pol is None and t is not None and t[0] == 'sub' and t[1] == seq and t[2][0] == 'slice' and t[2][2] == NONE and \
+                t[2][3] == NONE:
+            # s[start:] with start decided by only_last elsewhere: one arm per definition of the bound
+            alts = f.alternatives(t[2][1])
+            if alts and len(alts) == 2:
+                for d2, t2 in alts:
+                    for atom, p in ctx.conds(f, f.nodes[d2.node]):
+                        if atom == ('v', 'only_last', 'P') and t2 is not None:
+                            arms[p] = seq if t2 == ('c', 0) else ('sub', seq, ('slice', t2, NONE, NONE))
+                continue
         arms[pol] = t
     want_last = ('sub', seq, ('slice', ('un', '-', k), NONE, NONE))
     ok = arms.get(True) == want_last and arms.get(False) == seq
